@@ -158,7 +158,7 @@ def run(ctx):
     pool = H.rpu_pool(rng.fork("pool"), 80 if quick else 300, max_len=500)
     rpus = [r for r, _ in pool]
     conv = F.Conv()
-    sets = crafted_sei_sets(rng.fork("sei"), 60 if quick else 700)
+    sets = crafted_sei_sets(rng.fork("sei"), 100 if quick else 700)
     sets = rng.shuffle(sets)
     ctx.count("crafted SEI NALs", len(sets))
     jobs = []
